@@ -9,6 +9,7 @@ CONSTANTS
   MaxOps = 3
   HasUpper = TRUE
   Known = {}
+  AsFound = {}
   UpperTypes = {"none", "file", "dir", "wh"}
   LowerTypes = {"none", "file", "dir", "wh"}
 INVARIANTS LoadAgrees LiveIsView StatusAgrees RestartSame LowersFrozen
